@@ -85,13 +85,16 @@ func batch(loaded []int) string {
 		}
 	}
 	s := r.Summary()
+	if len(r.ProcErrs) > 0 {
+		s += "\ntrees after the failed run:\n" + dump.Modules(r.MS, dump.Options{Positions: true})
+	}
 	batchCache[key] = s
 	return s
 }
 
 func summary(ms *yang.Modules, errs []error) string {
 	if len(errs) > 0 {
-		return "process errors:\n" + dump.Errors(errs)
+		return "process errors:\n" + dump.Errors(errs) + "\ntrees after the failed run:\n" + dump.Modules(ms, dump.Options{Positions: true})
 	}
 	return dump.Modules(ms, dump.Options{Positions: true})
 }
@@ -121,6 +124,11 @@ func runHistory(h []int) (f *fail, procs int, steps int) {
 						fp = "spurious-errors"
 					case strings.HasPrefix(want, "process errors"):
 						fp = "different-errors"
+						we, _, _ := strings.Cut(want, "\ntrees after the failed run:\n")
+						ge, _, _ := strings.Cut(got, "\ntrees after the failed run:\n")
+						if we == ge {
+							fp = "trees-after-failed-run-differ"
+						}
 					}
 					res = &fail{fp, want, got + fmt.Sprintf("\n(after step %d)", step)}
 					return
@@ -290,7 +298,7 @@ func replay(tier string, raw json.RawMessage) (bool, string, string) {
 func init() {
 	core.Register(&core.Prop{
 		ID: "C18", Variant: "plain", Shards: shards, Run: run, Replay: replay,
-		Rule:        "every history of the depth bound over the operations process, read and load(t) for a pool of interacting texts (typedef/identity/grouping used across modules, augment into another module and into an rpc input that is not written, deviation, a module with semantic errors, a module with a submodule, and texts that must be rejected: syntax error, unknown statement after typedefs and identities were built, missing mandatory substatement, a re-load, a different text declaring an already loaded module, a newer revision) is executed on one real Modules value; each load's verdict is predicted (valid and not yet loaded <=> nil); after every process the canonical dump or error list must equal that of a fresh set given the successfully loaded texts once each in the same order and processed once; read operations must not change the dump. states = distinct histories; transitions = operations executed; non-trivial = histories with two or more process calls",
+		Rule:        "every history of the depth bound over the operations process, read and load(t) for a pool of interacting texts (typedef/identity/grouping used across modules, augment into another module and into an rpc input that is not written, deviation, a module with semantic errors, a module with a submodule, and texts that must be rejected: syntax error, unknown statement after typedefs and identities were built, missing mandatory substatement, a re-load, a different text declaring an already loaded module, a newer revision) is executed on one real Modules value; each load's verdict is predicted (valid and not yet loaded <=> nil); after every process the canonical dump, or else the error list together with the dump of the trees as they can be read after the failed run, must equal that of a fresh set given the successfully loaded texts once each in the same order and processed once; read operations must not change the dump. states = distinct histories; transitions = operations executed; non-trivial = histories with two or more process calls",
 		Assumptions: []string{"texts declare one module each (the library documents that a multi-module text may be partly added)", "the batch run on a fresh set is the reference"},
 	})
 }
